@@ -275,6 +275,20 @@ def call_ext(it: Any, f: ExtV, args: List[Any], kwargs: Dict[str, Any], node: An
             return Unknown(f"{name} of non-scalar")
     if name in ("typing.cast",):
         return args[1]
+    if name == "inspect.getfullargspec" and args and isinstance(args[0], FuncV):
+        fa = args[0].node.args
+        names = [p.arg for p in fa.posonlyargs + fa.args]
+        from .absint import Env
+
+        defaults = tuple(it.eval(d, args[0].env or Env(None, {}), args[0].module) for d in fa.defaults) if fa.defaults else None
+        return Obj("inspect.FullArgSpec", attrs={"args": names, "defaults": defaults, "varargs": fa.vararg.arg if fa.vararg else None, "varkw": fa.kwarg.arg if fa.kwarg else None, "kwonlyargs": [p.arg for p in fa.kwonlyargs]}, open_attrs=False)
+    if name == "itertools.zip_longest":
+        seqs = [it.concrete_iter(a) for a in args]
+        if any(x is None for x in seqs):
+            raise A.Unsupported("zip_longest over non-concrete iterables")
+        n = max(len(x) for x in seqs) if seqs else 0
+        fill = kwargs.get("fillvalue")
+        return [tuple(x[i] if i < len(x) else fill for x in seqs) for i in range(n)]
     if name.startswith("typing.") or name.startswith("collections.abc."):
         return ExtV(name)
     if name == "copy.deepcopy" or name == "copy.copy":
